@@ -157,7 +157,7 @@ def run(ctx):
     ctx.check(not miss and not extra, "C15:lattice:multiplicity", msg, where,
               sample={"patterns": 64, "near_integer_accepted": 27 - len(miss), "fraction_rejected": 37 - len(extra)})
     # ---- counting loop: all partitions of four images
-    bad = []
+    bad, fnotes = [], []
     for part in partitions(4):
         bounds = dict(pos_bounds)
         ops = []
@@ -176,11 +176,46 @@ def run(ctx):
         tolerances += s.tolerances
         if kind != "ok" or got != max(part) + 1:
             bad.append((part, got))
+            fnotes += getattr(s.ev, "float_notes", [])
     ctx.check(not bad, "C15:loop:multiplicity",
               "with the images in the classes %s (same number = equal modulo the lattice) multiplicity returns %s, not the number of "
-              "classes: every image must be compared with every representative and appended exactly when none matches"
-              % (bad[0][0] if bad else "", bad[0][1] if bad else ""), where,
+              "classes%s" % (bad[0][0] if bad else "", bad[0][1] if bad else "",
+                             (" (line %d: `%s` is %s in exact arithmetic, its binary floating-point value is truncated to %s)" % fnotes[0]) if fnotes else
+                             ": every image must be compared with every representative and appended exactly when none matches"), where,
               sample={"partitions_of_4": 15, "wrong": len(bad)})
+    # ---- six images: class sizes 3 and 6 occur (site symmetries of order 3 and 6); every shape of partition, and interleaved orders
+    six = [(0, 0, 0, 0, 0, 0), (0, 0, 0, 0, 0, 1), (0, 0, 0, 0, 1, 1), (0, 0, 0, 1, 1, 1), (0, 0, 0, 0, 1, 2), (0, 0, 0, 1, 1, 2),
+           (0, 0, 1, 1, 2, 2), (0, 0, 0, 1, 2, 3), (0, 0, 1, 1, 2, 3), (0, 0, 1, 2, 3, 4), (0, 1, 2, 3, 4, 5),
+           (0, 1, 0, 1, 0, 1), (0, 1, 2, 0, 1, 2), (0, 1, 1, 0, 1, 0)]
+    if ctx.tier != "quick":
+        six = list(partitions(6))
+    bad6, notes = [], []
+    for part in six:
+        bounds = dict(pos_bounds)
+        ops = []
+        for i, k in enumerate(part):
+            t = []
+            for c in range(3):
+                fa = "F%d%d" % (k, c)
+                bounds[fa] = (Fraction(100 + 70 * k, 1000), Fraction(105 + 70 * k, 1000))
+                ea = "e%d%d" % (i, c)
+                bounds[ea] = ERR
+                sign = 1 if (i + c) % 2 else -1
+                t.append(Rat.atom(fa) + Rat.const((i, -i, 2 * i)[c]) + (Rat.atom(ea) * sign if i else Rat.const(0)))
+            ops.append((I3, t))
+        s = Session(mod, lambda kw, ses, ops=ops: ses.group(ops), bounds)
+        kind, got = s.call(pos_atoms, sgno=Rat.const(1))
+        if kind != "ok" or got != max(part) + 1:
+            bad6.append((part, got))
+            notes += getattr(s.ev, "float_notes", [])
+    why6 = ""
+    if notes:
+        ln, txt, exact, binary = notes[0]
+        why6 = (" (line %d: `%s` is %s in exact arithmetic but the binary floating-point value lies just below it and is truncated to %s)"
+                % (ln, txt, exact, binary))
+    ctx.check(not bad6, "C15:loop:six-images",
+              "with six images in the classes %s (same number = equal modulo the lattice) multiplicity returns %s, not the number of classes%s"
+              % (bad6[0][0] if bad6 else "", bad6[0][1] if bad6 else "", why6), where, sample={"partitions_of_6": len(six), "wrong": len(bad6)})
     # ---- how the rotation acts: 3-fold axis of the hexagonal frame, special position on it
     A = [[0, -1, 0], [1, -1, 0], [0, 0, 1]]
     s = Session(mod, lambda kw, ses: ses.group([(I3, [0, 0, 0]), (A, [0, 0, 0])]), {"z": (Fraction(1, 10), Fraction(2, 10))})
@@ -252,8 +287,9 @@ def run(ctx):
     ctx.not_decided += ["the choice of the tolerance inside its window is numerical",
                         "that the count equals nsymop / |site symmetry| follows on paper from C04 (group) and these rules"]
     ctx.assumptions += ["C04", "numpy mod/round/abs/sum/max semantics (interval versions in xfabsa/intervals.py)",
-                        "the code treats operations uniformly: model groups of 2 and 4 operations stand for any group"]
+                        "the code treats operations uniformly: model groups of 2, 4 and 6 operations stand for any group",
+                        "truncating conversions are folded in IEEE double arithmetic where that can be done faithfully (xfabsa/floatshadow.py)"]
     return ("multiplicity evaluated by E7 on model groups with tolerance tests decided in the interval domain: all 64 "
             "integer/rounding/fraction patterns of the difference of two images, all 15 partitions of four images into lattice "
-            "classes, the special position on a 3-fold axis (R.x versus x.R), the tolerance window, the sg.sg arguments for six "
+            "classes and every shape of partition of six images (truncations folded in binary floating point), the special position on a 3-fold axis (R.x versus x.R), the tolerance window, the sg.sg arguments for six "
             "requests with ValueError without any, and independence of all 30 ordered pairs of requests from each other.")
